@@ -58,7 +58,7 @@ var pqLinModel = porcupine.Model{
 }
 
 func init() {
-	probeNames["C13"] = []string{"switch_inside_queue_op", "publish_during_reader_tx", "flush_committed_during_ack", "consumer_empty_poll", "lin_checked", "pq_reopen", "event_multi_page"}
+	probeNames["C13"] = []string{"switch_inside_queue_op", "publish_during_reader_tx", "flush_committed_during_ack", "consumer_empty_poll", "lin_checked", "pq_reopen", "begin_with_active_tx", "event_multi_page"}
 	register(&PropDef{
 		ID: "C13", Level: "exploration", QuickSec: 55, ThoroSec: 1200,
 		Rule: "each run = a producer task (Write/Next/Flush loop, <=40 events) and a consumer task (Begin/Next/Read/Done/ACK loop) on one queue plus the File's writer goroutine; the PRNG scheduler interleaves at every txfile hook (begin, all commit phases, tx close), every simulated disk call and between API calls, in particular between the acker's read transaction and its cleanup transaction. Oracles: consumer-side FIFO/byte-exact oracle of C05 with the reader-snapshot visibility bound; ACK only of completely read events succeeds; no deadlock (scheduler) ; the recorded history {publish(k) per producer call, reader begin, next->event i|empty, ack(n)} stamped with global event sequence numbers is checked with porcupine against the sequential model (flushed, snapshot, consumed, acked); after the run drain+reopen must redeliver exactly the un-ACKed suffix. Non-trivial = run with a context switch between producer and consumer inside a queue operation; distinct = hash of the (task, yield point) sequence.",
@@ -229,6 +229,12 @@ func c13Body(e *Env) {
 					break
 				}
 				progressed = true
+				if r.Intn(10) == 0 {
+					// misuse while the producer may be committing: must return an error
+					// at once and must not block or disturb the producer (C15)
+					step(Op{K: "rbegin2"})
+					e.Yield("op")
+				}
 				for p.rdCur >= 0 && p.rdOff < p.Sizes[p.rdCur] && !e.Failed() {
 					if r.Intn(12) == 0 {
 						break // skip the rest of the event
